@@ -154,6 +154,17 @@ func runGCCase(rep *vevid.Report, f *vevid.Flags, c gcCase, no int) {
 			viol("positions-survive-reopen", "ConsumerGroup", fmt.Sprintf("group %s after reopen: ack %d consumed %d, before: ack %d consumed %d", name, g.AcknowledgedSeq(), g.ConsumedSeq(), wantAck, want))
 		}
 	}
+	// one more append after the reopen takes the next sequence and reads back
+	extra := gcPayload(c.Profile, 200)
+	if err := fq2.Queue().Put(extra); err != nil {
+		viol("put-failed", "queue.Put", fmt.Sprintf("append after reopen: %v", err))
+		return
+	}
+	if app := fq2.Queue().AppendedSeq(); app != want+1 {
+		viol("dense-sequences", "queue.Put after reopen", fmt.Sprintf("%d appends, reopen, one more append: appended sequence %d, expected %d", c.N, app, want+1))
+	} else if b, err := fq2.Queue().Get(want + 1); err != nil || !bytes.Equal(b, extra) {
+		viol("unacked-readable", "queue.Get after reopen", fmt.Sprintf("the message appended after the reopen (sequence %d) reads %q... err=%v", want+1, head(b), err))
+	}
 	rep.Outcome(fmt.Sprintf("gcscan %s n=%d min=%d", c.Profile, c.N, minAck))
 }
 
@@ -261,12 +272,12 @@ func runGCScan(f *vevid.Flags, rep *vevid.Report) {
 	if f.Thorough() {
 		maxN = 14
 	}
-	rep.Rule = fmt.Sprintf("scripted exhaustive product: message size profile {half,big,tiny,mixed,exact} x appends 5..%d x acknowledged position of group a (every position -1..n-1) x second group {none, every position <= a's} x {sync+gc once, twice}; one or two groups consume everything, acknowledge, FanOutQueue.Sync + Queue.GC run, every message above the queue ack is read back byte for byte, then close / reopen / read back again; 4 index entries per index page, 64-byte data pages; plus long logs whose data or index page ids cross 9->10 and 99->100 (profile,appends: big 11,12,13,102; tiny 41,45,49,406; half 23), one group, acknowledged positions: all (short) / around the boundary (long); plus explicit index resets (FanOutQueue.SetAppendedSeq): profile x appends {1,5,6,9,10} x reset target -1..n+5 (backwards over index / data pages, in place, forwards) x 1/2/5 more appends x with/without a group: every message appended after the reset reads back under its own sequence, also after reopen. distinct = cases", maxN)
+	rep.Rule = fmt.Sprintf("scripted exhaustive product: message size profile {half,big,tiny,mixed,exact} x appends 1..%d x acknowledged position of group a (every position -1..n-1) x second group {none, every position <= a's} x {sync+gc once, twice}; one or two groups consume everything, acknowledge, FanOutQueue.Sync + Queue.GC run, every message above the queue ack is read back byte for byte, then close / reopen / read back again / one more append (next sequence, readable); 4 index entries per index page, 64-byte data pages; plus long logs whose data or index page ids cross 9->10 and 99->100 (profile,appends: big 11,12,13,102; tiny 41,45,49,406; half 23), one group, acknowledged positions: all (short) / around the boundary (long); plus explicit index resets (FanOutQueue.SetAppendedSeq): profile x appends {1,5,6,9,10} x reset target -1..n+5 (backwards over index / data pages, in place, forwards) x 1/2/5 more appends x with/without a group: every message appended after the reset reads back under its own sequence, also after reopen. distinct = cases", maxN)
 	rep.Bounds["max_appends"] = maxN
 	var idx int64
 	no := 0
 	for _, profile := range []string{"half", "big", "tiny", "mixed", "exact"} {
-		for n := 5; n <= maxN; n++ {
+		for n := 1; n <= maxN; n++ {
 			for a := int64(-1); a < int64(n); a++ {
 				bs := []int64{-2}
 				for b := int64(-1); b <= a; b++ {
